@@ -416,8 +416,8 @@ def C01_full : Prop :=
 /-! ### the deferred queue composes the page in order, at any nesting depth -/
 
 /-- **The page is the in-order composition of the instances' outputs, at any nesting depth** (the clause of C01 about
-composition, for the model of the code, on trees of components): `{% component %}` tags whose bodies are empty or hold
-`{% fill "name" %}` tags, nested through templates and through fill content to any depth, in loops, recursively, their
+composition, for the model of the code, on trees of components): `{% component %}` tags whose bodies are empty, hold
+`{% fill "name" %}` tags or are implicit default content, nested through templates and through fill content to any depth, in loops, recursively, their
 templates holding `{% slot %}` tags (not flagged `default`).  `ComponentNode.render` returns a placeholder for every
 nested instance and queues a renderer; the `while` loop of `component_post_render` — a deque of (text-before, child,
 parent, grand-parent) items and a dict of partial outputs — puts each instance's tokens exactly where its tag stood:
@@ -427,7 +427,7 @@ renderer's context).  Proved for every fuel, library of the fragment, context an
 loop with a lemma for "the rest of one instance's content" (`Djc.Proofs.Stitch.seg`). -/
 theorem C01_full_partial_component_trees_compose_in_order (env : Env) (hlib : Djc.Proofs.Tree.GoodLib env) (fuel : Nat)
     (name : Str) (kwargs : List (Str × Expr)) (only dyn : Bool) (body : List Node) (ctx : Ctx) (w w' : World) (toks : List Tok)
-    (hd : isDynName name = false) (hb : Djc.Proofs.Tree.fbody body = true) (hc : Djc.Proofs.Plain.ctxFree ctx = true)
+    (hd : isDynName name = false) (hb : Djc.Proofs.Tree.gbody body = true) (hc : Djc.Proofs.Plain.ctxFree ctx = true)
     (hw : Djc.Proofs.Tree.WInv w)
     (hext : isExtracting ctx = false)
     (hpar : Djc.Proofs.Tree.parentOf (if only || env.isolated then isolatedCopy ctx else ctx) = none)
@@ -495,7 +495,7 @@ theorem unfilled_slot_renders_its_default_content_in_trees (env : Env) (fuel : N
 on the fragment): the fills are those of the body — content of the fragment, the variables between tag and fill
 captured without slot references — and reading the body leaves the world as it was but for the step counter. -/
 theorem fills_of_a_tag_body_in_trees (env : Env) (fuel : Nat) (body : List Node) (ctx : Ctx) (w w' : World)
-    (fills : List (Str × FillFn)) (hb : Djc.Proofs.Tree.fbody body = true) (hc : Djc.Proofs.Plain.ctxFree ctx = true)
+    (fills : List (Str × FillFn)) (hb : Djc.Proofs.Tree.gbody body = true) (hc : Djc.Proofs.Plain.ctxFree ctx = true)
     (h : (resolveFills env (fuel + 1) body ctx).run.run w = (.ok fills, w')) :
     Djc.Proofs.Tree.GoodFills fills ∧ ∃ st, w' = { w with steps := st } :=
   Djc.Proofs.Tree.resolveFills_ok env fuel body ctx w w' fills hb hc h
